@@ -27,6 +27,7 @@ def run(ctx):
     ctx.each(r04d, ctx, repo)
     ctx.each(r04e, ctx, repo)
     ctx.each(flowalg.share_rule, ctx, repo, "R04f")
+    ctx.each(flowalg.kind_dispatch_rule, ctx, repo, "R04g")
     ctx.rule("R01e", "junction balance passes on all inflow; residual = inflow - sum(other outflows) per row (shared with C01)")
     ctx.each(c01.r01e, ctx, repo, K.types(repo))
 
